@@ -86,7 +86,9 @@ class Run:
         self.pos = 0
         world.FakeEvent.wait_hook = self.wait_hook
         try:
+            stuck = 0
             while True:
+                before = self.pos
                 self.start_times.append(world.clock.ns)
                 self.gen.start()
                 th = self.gen._thread
@@ -102,6 +104,9 @@ class Run:
                 self.epoch += 1
                 if self.pos >= len(self.script):
                     break
+                stuck = stuck + 1 if self.pos == before else 0
+                if stuck >= 2:
+                    raise RuntimeError("restarted generator does not tick (worker returned without waiting)")
         except Exception as ex:            # noqa
             self.exc = "%s: %s" % (type(ex).__name__, ex)
         finally:
